@@ -25,7 +25,7 @@ def scenarios(pid, tier, seed):
     if pid == "C07":
         return spawn_scen.fam_faults(seed, big) + spawn_scen.fam_path(seed, False)[-8:]
     if pid == "C08":
-        return spawn_scen.fam_leak(seed, big) + spawn_scen.fam_wiring(seed, False)[::5]
+        return spawn_scen.fam_leak(seed, big) + spawn_scen.fam_wiring(seed, False)[::5] + spawn_scen.fam_eofrace(seed, big)
     if pid == "C15":
         return spawn_scen.fam_path(seed, big) + spawn_scen.fam_path_noslash(seed)
     if pid == "C17":
